@@ -68,6 +68,11 @@ pub fn reset_library() {
 }
 
 pub fn exec_run(script: &RunScript, keep_log: bool, keep_text: bool, watchdog: Duration) -> ExecOut {
+  exec_run_opt(script, keep_log, keep_text, watchdog, true)
+}
+
+/// `with_rnew`: also evaluate the uncached LunarMonth::new next to every LM.from_ym.
+pub fn exec_run_opt(script: &RunScript, keep_log: bool, keep_text: bool, watchdog: Duration, with_rnew: bool) -> ExecOut {
   if script.reset {
     reset_library();
   }
@@ -90,7 +95,7 @@ pub fn exec_run(script: &RunScript, keep_log: bool, keep_text: bool, watchdog: D
           let s0 = next_seq();
           let out = q.eval();
           let s1 = next_seq();
-          let rnew = if q.kind == K_LM_FROM_YM {
+          let rnew = if with_rnew && q.kind == K_LM_FROM_YM {
             let r = Query::new(K_LM_NEW, q.args.clone()).eval();
             Some((r.class(), r.digest(), clip(r.text(), keep_text)))
           } else {
